@@ -96,7 +96,12 @@ def search_entries(chk, r, n, max_pto, thorough):
     # delta piece but no plus distribution first appear there) and grids whose last node is below 1
     # (the plus prescription still integrates down to z = x)
     forced = [dict(cfg=1, pto=2, N=6, top=1.0, where="generic", is_log=True), dict(cfg=0, pto=1, N=7, top=0.8, where="generic", is_log=True),
-              dict(cfg=3, pto=1, N=7, top=0.8, where="node", is_log=True), dict(cfg=2, pto=1, N=6, top=0.6, where="last-interval", is_log=False)]
+              dict(cfg=3, pto=1, N=7, top=0.8, where="node", is_log=True), dict(cfg=2, pto=1, N=6, top=0.6, where="last-interval", is_log=False),
+              # x exactly on the lowest grid node (legal: only x below the grid is rejected; p_0(x_0) = 1 there),
+              # logarithmic and linear, and a grid reaching 1e-8 with x next to its lower end (the relative
+              # 1e-10 cut of the integration range must stay relative)
+              dict(cfg=0, pto=1, N=7, top=1.0, where="first-node", is_log=True), dict(cfg=1, pto=1, N=6, top=1.0, where="first-node", is_log=False),
+              dict(cfg=0, pto=1, N=8, top=1.0, where="tiny-x", is_log=True, xmin=1e-8)]
     for i in range(-len(forced), n):
         f_ = forced[i + len(forced)] if i < 0 else None
         i = max(i, 0)
@@ -107,9 +112,11 @@ def search_entries(chk, r, n, max_pto, thorough):
         is_log = r.random() < 0.75
         top = float(r.choice([1.0, 1.0, 1.0, 1.0, 0.8, 0.6]))
         where = r.choice(["last-interval", "generic", "node", "first-interval", "last-two"])
+        xmin = float(r.choice([1e-2, 0.03]))
         if f_ is not None:
             cfg, pto, N, top, where, is_log = CONFIGS[f_["cfg"]], f_["pto"], f_["N"], f_["top"], f_["where"], f_["is_log"]
-        grid = cards.default_grid(N, float(r.choice([1e-2, 0.03]))) if is_log else cards.linspace(0.05, 1.0, N)
+            xmin = f_.get("xmin", xmin)
+        grid = cards.default_grid(N, xmin) if is_log else cards.linspace(0.05, 1.0, N)
         grid[-1] = 1.0
         grid = [float(g * top) for g in grid]
         x = dict(
@@ -122,6 +129,10 @@ def search_entries(chk, r, n, max_pto, thorough):
             x = float(r.uniform(grid[-3], grid[-2]))
         elif where == "first-interval":
             x = float(r.uniform(grid[0], grid[1]))
+        elif where == "first-node":
+            x = float(grid[0])
+        elif where == "tiny-x":
+            x = float(3.0 * grid[0])
         Q2 = float(r.choice([4.0, 20.0, 90.0, 1000.0]))
         pt = dict(x=x, Q2=Q2)
         case = dict(config=cfg[:6], PTO=pto, x=x, Q2=Q2, where=where, grid=grid, grid_top=top, degree=degree, is_log=is_log)
